@@ -129,6 +129,15 @@ RULE_PINNED = ('cases are the distinct reachable states of the TLA+ generator ma
                'by hash before they are counted')
 
 
+def typed_traces(ctx, api, acc, n, seed):
+    """direction B with the type-directed grower (harness/typed.go)"""
+    tv = api['run_trace_validation'](ctx, 'typed-traces', n, seed, corpus=False, mode='typed')
+    acc.add_traces('trace validation, type-directed grower: expressions grown along a schema of the document (selector chains after every kind of '
+                   'projection, filters over element types, by-functions with keys over the element type, lets with sibling and shadowing bindings, '
+                   '34 call shapes, operators between typed operands) on documents that deviate from the schema at random places; every recorded '
+                   'outcome checked by TLC against Admissible(expr, doc)', tv)
+
+
 # --------------------------------------------------------------------- C01
 @plan('C01')
 def c01(ctx, api):
@@ -149,6 +158,7 @@ def c01(ctx, api):
     tv = api['run_trace_validation'](ctx, 'traces', 6000 if thorough else 1500, ctx['seed'])
     acc.add_traces('trace validation: the compliance corpus and randomly grown expressions/documents run through the real Search, '
                    'every recorded outcome checked by TLC against Admissible(expr, doc)', tv)
+    typed_traces(ctx, api, acc, 40000 if thorough else 6000, ctx['seed'] + 11)
     st, summ = api['run_tlc_to_harness'](ctx, 'tsweep', 'GenTSweep', cfg(constants={'Emit': 'TRUE', 'Prop': '"C01"', 'Only': '{}', 'To': 9000 if thorough else 1100}),
                                          timeout=1500, harness_args=['-timeout', '600s'])
     acc.add('GenTSweep: 120 template families (document, expression and expected value with REP / IDX / NUM holes) instantiated for every n = 0..%d: '
@@ -170,6 +180,7 @@ def c01(ctx, api):
 def c17(ctx, api):
     acc = Acc()
     thorough = ctx['tier'] == 'thorough'
+    typed_traces(ctx, api, acc, 20000 if thorough else 3000, ctx['seed'] + 117)
     st, summ = api['run_tlc_to_harness'](ctx, 'ident', 'GenIdent',
                                          cfg(constants={'Emit': 'TRUE', 'Prop': '"C17"', 'Big': tb(thorough)}),
                                          timeout=3000)
@@ -208,6 +219,7 @@ def c17(ctx, api):
 def c10(ctx, api):
     acc = Acc()
     thorough = ctx['tier'] == 'thorough'
+    typed_traces(ctx, api, acc, 20000 if thorough else 3000, ctx['seed'] + 110)
     consts = {'Emit': 'TRUE', 'Prop': '"C10"', 'Triples': tb(thorough), 'Quads': '"all"' if thorough else '"rep"',
               'Pool <- ' + ('PoolOpsBig' if thorough else 'PoolOps'): None,
               'NDocs': 1000 if thorough else 343}
@@ -267,6 +279,7 @@ def c12(ctx, api):
 @plan('C20')
 def c20(ctx, api):
     acc = Acc()
+    typed_traces(ctx, api, acc, 20000 if ctx['tier'] == 'thorough' else 3000, ctx['seed'] + 120)
     st, summ = api['run_tlc_to_harness'](ctx, 'eq', 'GenEq', cfg(constants={'Emit': 'TRUE', 'Prop': '"C20"'}), timeout=1500)
     acc.add('GenEq: all ordered pairs of a 30-value pool x 16 expressions; 15 number spellings pairwise', st, summ)
     if ctx['tier'] == 'thorough':
@@ -294,6 +307,7 @@ def c20(ctx, api):
 def c19(ctx, api):
     acc = Acc()
     thorough = ctx['tier'] == 'thorough'
+    typed_traces(ctx, api, acc, 20000 if thorough else 3000, ctx['seed'] + 119)
     st, summ = api['run_tlc_to_harness'](ctx, 'let', 'GenLet',
                                          cfg(constants={'Emit': 'TRUE', 'Prop': '"C19"', 'Depth': 3 if thorough else 2}),
                                          timeout=3000)
@@ -320,6 +334,7 @@ def c19(ctx, api):
 def c02(ctx, api):
     acc = Acc()
     thorough = ctx['tier'] == 'thorough'
+    typed_traces(ctx, api, acc, 20000 if thorough else 3000, ctx['seed'] + 102)
     st, summ = api['run_tlc_to_harness'](ctx, 'call', 'GenCall',
                                          cfg(constants={'Emit': 'TRUE', 'Prop': '"C02"', 'Small': 15 if thorough else 9}),
                                          timeout=3000)
@@ -644,6 +659,7 @@ def c08(ctx, api):
 def c18(ctx, api):
     acc = Acc()
     thorough = ctx['tier'] == 'thorough'
+    typed_traces(ctx, api, acc, 20000 if thorough else 3000, ctx['seed'] + 118)
     st, summ = api['run_tlc_to_harness'](ctx, 'pipe', 'GenPipe', cfg(constants={'Emit': 'TRUE', 'Prop': '"C18"'}), timeout=3000)
     acc.add('GenPipe: 29 x 24 pairs (e1, e2) x 15 documents; results fed back as Go values', st, summ)
     consts = {'Emit': 'TRUE', 'Prop': '"C18"', 'MaxCalls': 4 if thorough else 3, 'MaxDocs': 6, 'NTexts': 8 if thorough else 5}
@@ -766,6 +782,7 @@ def c09(ctx, api):
 def c03(ctx, api):
     acc = Acc()
     thorough = ctx['tier'] == 'thorough'
+    typed_traces(ctx, api, acc, 20000 if thorough else 3000, ctx['seed'] + 103)
     root = ctx['root']
     text = cfg(spec='HSpec', constants={'Emit': 'TRUE', 'Prop': '"C03"', 'Big': 'FALSE', 'KindsA': '{"json"}', 'KindsB': '{"json"}'},
                invariants=('HCheck',))
